@@ -65,6 +65,8 @@ fn item_decl(kind: &str, name: &str, public: bool, n: u64) -> String {
         "const" => format!("{p}const {name}: int = {n}\n\n"),
         "trait" => format!("{p}trait {name}:\n    def describe(self) -> int: ...\n\n"),
         "newtype" => format!("{p}type {name} = newtype int\n\n"),
+        // the importable item is a *variant*; it is public iff its enum is
+        "variant" => format!("{p}enum Holder{name}:\n    {name}\n    Other{name}\n\n"),
         _ => format!("{p}def {name}() -> int:\n    return {n}\n\n"),
     }
 }
@@ -78,13 +80,14 @@ fn item_use_fn(kind: &str, local: &str, fname: &str, public: bool) -> String {
         "const" => format!("{p}def {fname}() -> int:\n    x = {local}\n    return 1\n"),
         "trait" => format!("class Impl{fname} with {local}:\n    v: int\n\n    def describe(self) -> int:\n        return self.v\n\n{p}def {fname}() -> int:\n    return 1\n"),
         "newtype" => format!("{p}def {fname}() -> int:\n    w = {local}(3)\n    return 1\n"),
+        "variant" => format!("{p}def {fname}() -> int:\n    return 1\n"),
         _ => format!("{p}def {fname}() -> int:\n    return {local}()\n"),
     }
 }
 
 fn item_name(kind: &str, base: &str) -> String {
     match kind {
-        "model" | "class" | "enum" | "trait" | "newtype" => {
+        "model" | "class" | "enum" | "trait" | "newtype" | "variant" => {
             let mut c = base.chars();
             c.next().map(|f| f.to_uppercase().collect::<String>() + c.as_str()).unwrap_or_default().replace('_', "")
         }
@@ -147,7 +150,7 @@ pub fn random_features(seed: u64) -> Features {
         13..=16 => "visibility",
         _ => "fault",
     };
-    let item_kind = *r.pick(&["def", "def", "model", "const", "class", "enum", "trait", "newtype"]);
+    let item_kind = *r.pick(&["def", "def", "model", "const", "class", "enum", "trait", "newtype", "variant"]);
     let spelling = match r.below(10) {
         0..=3 => "py",
         4 => "py-alias",
